@@ -3,6 +3,7 @@ from vlib import facts as F, thir as T, xmlgrammar as X, absint as A
 from vlib.report import loc_of
 
 EXPLANATION = (
+    "[Method] R2-R4: Decided by abstract interpretation of the THIR of highest_common_version, SessionId::new/from_str, ServerHello::read_xml and Session::new (vlib/absint.py: local functions and closures inlined, Option/Result combinators and `?` interpreted, undecided branches fork the path): the verdict does not depend on how the source spells the logic. "
     "C12/R1: every base version the client advertises (THIR of ClientHello::default's CAPABILITIES) other than :base:1.0 requires that "
     "the framing path depends on the negotiated version — some function of the session/message/transport modules must read "
     "Context::protocol_version or match on Base; otherwise the client advertises a version whose mandatory framing (RFC 6242 §4.1: "
